@@ -18,16 +18,14 @@ def getFloat (j : Json) : Except String Float :=
 
 def optStr (j : Json) : Option String := match j with | .str s => some s | _ => none
 
-def prim (units : List UnitDef) : Prim Float where
-  conv := fun s d v =>
-    match s, d with
-    | some a, some b =>
-      if a = b then some v
-      else match units.find? (·.name == a), units.find? (·.name == b) with
-        | some x, some y => if x.dims = y.dims then some (v * x.k / y.k) else none
-        | _, _ => none
-    | _, _ => some v          -- NumberType.convert does nothing without both units
-  isclose := fun a b => fabs (a - b) ≤ 1e-8 + 1e-6 * fabs b
+/-- IEEE double arithmetic for the shared formulas `iscloseA` / `convA` of the model -/
+def floatArith : Arith Float :=
+  ⟨fun a b => a - b, fun a b => a + b, fun a b => a * b, fun a b => a / b, fabs, fun a b => a ≤ b⟩
+
+def prim (units : List UnitDef) : Prim Float :=
+  arithPrim floatArith
+    (fun s => (units.find? (·.name == s)).map fun u => (⟨u.k, u.dims⟩ : LinUnit Float (List (Int × Nat))))
+    1e-8 1e-6
 
 def parseVal (j : Json) : Except String (Option (Val Float)) := do
   match j with
